@@ -4,6 +4,7 @@ package main
 
 import (
 	"fmt"
+	"os"
 	"go/types"
 	"sort"
 	"strconv"
@@ -62,8 +63,11 @@ func q(name string) string {
 func (b *Builder) declConst(name, sort string) string {
 	qn := q(name)
 	if !b.declared[qn] {
-		if b.termMode > 0 {
+		if b.termMode > 0 && !strings.Contains(name, "#") { // (entry versions of heap arrays are named <array>#<epoch>: not fresh values)
 			b.freshInTermMode++
+			if os.Getenv("GVC_DEBUG") != "" {
+				fmt.Fprintf(os.Stderr, "declConst in term mode: %s\n", name)
+			}
 		}
 		b.declared[qn] = true
 		b.decls = append(b.decls, fmt.Sprintf("(declare-const %s %s)", qn, sort))
